@@ -2980,10 +2980,8 @@ static hawk_rtx_t* open_rtx_std (
 	rxtn->ecb.close = fini_rxtn;
 	hawk_rtx_pushecb (rtx, &rxtn->ecb);
 
-	rxtn->c.in.files = icf;
 	rxtn->c.in.index = 0;
 	rxtn->c.in.count = 0;
-	rxtn->c.out.files = ocf;
 	rxtn->c.out.index = 0;
 	rxtn->c.out.count = 0;
 	rxtn->c.cmgr = cmgr;
@@ -3016,6 +3014,11 @@ static hawk_rtx_t* open_rtx_std (
 		hawk_rtx_close (rtx);
 		return HAWK_NULL;
 	}
+
+	/* take over the console file name arrays only when nothing can fail any more.
+	 * fini_rxtn() frees them, and so does the caller if this function fails */
+	rxtn->c.in.files = icf;
+	rxtn->c.out.files = ocf;
 
 	return rtx;
 }
